@@ -145,15 +145,31 @@ NaturalLive(t, tyk, fnk, at) ==
 (* the last address of its hosts to go (a large number while nothing of a kind was ever heard)                     *)
 MaxOr(S, d) == IF S = {} THEN d ELSE CHOOSE x \in S : \A y \in S : y <= x
 MinOf3(a, b, c) == IF a <= b /\ a <= c THEN a ELSE IF b <= c THEN b ELSE c
-(* records received in packets for us only; SRV and addresses count only for an instance that was reported resolved *)
+(* SRV and addresses count only for an instance that was reported resolved.  A kind counts once a record of it was      *)
+(* received in a packet for us; from then on every record of the kind counts, also one from a packet that was not for   *)
+(* us: the daemon may keep such a copy (it does when it already holds records of that name), so the instance may live   *)
+(* as long as the longest-lived of them                                                                                 *)
 GoneAt(t, tyk, fnk, wasResolved) ==
   LET onlyFu(S) == {x \in S : t[x].forus}
-      ptrEnd == MaxOr({t[p].exp : p \in onlyFu({x \in Dom(t) : x[1] = "PTR" /\ x[2] = tyk /\ t[x].tk = fnk})}, 2000000000)
-      srvs == onlyFu({x \in Dom(t) : x[1] = "SRV" /\ x[2] = fnk})
-      srvEnd == MaxOr({t[x].exp : x \in srvs}, 2000000000)
+      End(S) == IF onlyFu(S) = {} THEN 2000000000 ELSE MaxOr({t[x].exp : x \in S}, 2000000000)
+      ptrEnd == End({x \in Dom(t) : x[1] = "PTR" /\ x[2] = tyk /\ t[x].tk = fnk})
+      srvs == {x \in Dom(t) : x[1] = "SRV" /\ x[2] = fnk}
+      srvEnd == End(srvs)
       hosts == {t[x].tk : x \in srvs}
-      adrEnd == MaxOr({t[a].exp : a \in onlyFu({x \in Dom(t) : IsAddrTy(x[1]) /\ x[2] \in hosts})}, 2000000000)
+      hostsFu == {t[x].tk : x \in onlyFu(srvs)}
+      adrEnd == IF onlyFu({x \in Dom(t) : IsAddrTy(x[1]) /\ x[2] \in hostsFu}) = {} THEN 2000000000
+                ELSE MaxOr({t[a].exp : a \in {x \in Dom(t) : IsAddrTy(x[1]) /\ x[2] \in hosts}}, 2000000000)
   IN IF wasResolved THEN MinOf3(ptrEnd, srvEnd, adrEnd) ELSE ptrEnd
+
+(* a record of the instance or of one of its hosts ran out (by TTL, cache-flush or an earlier verify request) since the  *)
+(* previous iteration: the daemon then looks at the instance again                                                      *)
+RanOutSince(t, tyk, fnk, since, upto) ==
+  LET hosts == {t[x].tk : x \in {y \in Dom(t) : y[1] = "SRV" /\ y[2] = fnk}}
+      end(id) == IF t[id].vexp < t[id].exp THEN t[id].vexp ELSE t[id].exp
+  IN \E id \in Dom(t) : /\ since < end(id) /\ end(id) <= upto
+                         /\ \/ (id[1] = "PTR" /\ id[2] = tyk /\ t[id].tk = fnk)
+                            \/ (id[1] \in {"SRV", "TXT"} /\ id[2] = fnk)
+                            \/ (IsAddrTy(id[1]) /\ id[2] \in hosts)
 
 RelatedNewer(t, tyk, fnk, hostk, since) ==
   \E id \in Dom(t) : /\ t[id].at >= since
@@ -209,7 +225,9 @@ StepEv(s, t, e) ==
                \* a verify request takes the instance away at its deadline, not before (no TTL arithmetic, no grace involved)
                \* (in an iteration without arrivals: when records arrive, the daemon looks at the cache again and treats what has
                \* less than a second left as gone already - the one-second slack of the other clauses)
-               \cup V("C05.verify-early", inbox # <<>> \/ ~(NaturalLive(t, c.key, e.fnk, T + 1000) /\ \E id \in Dom(t) : id[1] = "SRV" /\ id[2] = e.fnk /\ t[id].vdl > T),
+               \* (nor when another record of the instance ran out in this step - here: an address that an earlier verify request had
+               \* shortened - for the same reason)
+               \cup V("C05.verify-early", inbox # <<>> \/ RanOutSince(t, c.key, e.fnk, lastT, T) \/ ~(NaturalLive(t, c.key, e.fnk, T + 1000) /\ \E id \in Dom(t) : id[1] = "SRV" /\ id[2] = e.fnk /\ t[id].vdl > T),
                       <<"removed before the deadline of the verify request", e.fnk, T>>)
                \* delivered when due (goodbye + 1 s, expiry, verify deadline), plus at most one scheduling step
                \* (counted from the moment it was last reported found, if that is later)
@@ -332,6 +350,9 @@ MarkPcts == {80, 85, 90, 95}
 MarkTime(e, m) == e.at + (LifeMs(e.ttl) \div 100) * m
 DueMarks(e, at) == {m \in MarkPcts \ e.marks : MarkTime(e, m) <= at}
 MinOf(S) == CHOOSE x \in S : \A y \in S : x <= y
+RECURSIVE SumDue(_, _)
+SumDue(t, S) == IF S = {} THEN 0 ELSE LET x == CHOOSE y \in S : TRUE IN Cardinality(DueMarks(t[x], T)) + SumDue(t, S \ {x})
+FirstK(S, k) == {m \in S : Cardinality({x \in S : x < m}) < (IF k < 1 THEN 1 ELSE k)}
 
 SchedKey(X) == IF X[2] = "PTR" THEN "b:" \o X[1] ELSE IF X[2] = "ADDR" THEN "h:" \o X[1] ELSE "-"
 MatchIds(t, X) == {id \in Dom(t) : /\ T < t[id].exp
@@ -351,17 +372,26 @@ Explain(s, ch, X) ==
       fuInst == X[2] = "ANY" /\ X[1] \in UnresolvedT(ch, s.tab)
       fuHost == X[2] = "ADDR" /\ \E f \in UnresolvedT(ch, s.tab) : \E id \in Dom(s.tab) : id[1] = "SRV" /\ id[2] = f /\ s.tab[id].tk = X[1]
       fuKey == IF fuInst THEN X[1] ELSE IF fuHost THEN CHOOSE f \in UnresolvedT(ch, s.tab) : \E id \in Dom(s.tab) : id[1] = "SRV" /\ id[2] = f /\ s.tab[id].tk = X[1] ELSE ""
-      fuOk == (fuInst \/ fuHost) /\ (fuKey \notin Dom(s.fu) \/ (s.fu[fuKey].n < 3 /\ (T >= s.fu[fuKey].last + 500 \/ s.fu[fuKey].last = T)))
+      fuOk == (fuInst \/ fuHost) /\ (fuKey \notin Dom(s.fu) \/ (s.fu[fuKey].n < 3 /\ (s.fu[fuKey].n = 0 \/ T >= s.fu[fuKey].last + 500 \/ s.fu[fuKey].last = T)))
       verOk == \E v \in s.verifs : /\ (T = v.at \/ (lastT < v.at + 1000 /\ v.at + 1000 <= T))
                                  /\ \/ (X[2] = "SRV" /\ X[1] = v.fnk)
                                     \/ (X[2] = "ADDR" /\ X[1] \in v.anyhosts)
       \* copies of one record under several letter cases of the owner name are refreshed independently
       caseCopies == \E id \in MatchIds(s.tab, X) : Cardinality(s.tab[id].us) > 1
-      n == (IF schedDue THEN 1 ELSE 0) + Cardinality(refIds) + (IF fuOk THEN 1 ELSE 0) + (IF verOk THEN 1 ELSE 0)
+      \* every mark that has passed explains one question (a wake-up that skipped several marks may ask once for all of them or -
+      \* when the record is reached from two searches, a type and a subtype - once per mark)
+      nRef == SumDue(s.tab, refIds)
+      n == (IF schedDue THEN 1 ELSE 0) + nRef + (IF fuOk THEN 1 ELSE 0) + (IF verOk THEN 1 ELSE 0)
            + (IF caseCopies THEN 4 ELSE 0)
-      tab2 == [id \in Dom(s.tab) |-> IF id \in refIds THEN [s.tab[id] EXCEPT !.marks = @ \cup {MinOf(DueMarks(s.tab[id], T))}] ELSE s.tab[id]]
-      fu2 == IF fuOk /\ ~schedDue /\ refIds = {} /\ ~verOk
-             THEN Put(s.fu, fuKey, [n |-> IF fuKey \in Dom(s.fu) THEN (IF s.fu[fuKey].last = T THEN s.fu[fuKey].n ELSE s.fu[fuKey].n + 1) ELSE 1, last |-> T])
+      \* each time the question was asked uses up the earliest mark of every record that was due
+      tab2 == [id \in Dom(s.tab) |-> IF id \in refIds THEN [s.tab[id] EXCEPT !.marks = @ \cup FirstK(DueMarks(s.tab[id], T), Mult(X))] ELSE s.tab[id]]
+      \* n / last: the follow-ups that cannot be anything else (at least that many were sent); m / lastAny: every question that
+      \* may have been one - it coincided with a refresh mark, a schedule slot or a verify request - (at most that many)
+      sure == fuOk /\ ~schedDue /\ refIds = {} /\ ~verOk
+      old == IF fuKey \in Dom(s.fu) THEN s.fu[fuKey] ELSE [n |-> 0, last |-> 0, m |-> 0, lastAny |-> 0]
+      fu2 == IF fuInst \/ fuHost
+             THEN Put(s.fu, fuKey, [n |-> IF sure /\ old.last # T THEN old.n + 1 ELSE old.n, last |-> IF sure THEN T ELSE old.last,
+                                    m |-> IF old.lastAny # T THEN old.m + 1 ELSE old.m, lastAny |-> T])
              ELSE s.fu
   IN [s EXCEPT !.tab = tab2, !.fu = fu2,
                !.used = s.used \cup (IF schedDue THEN {k} ELSE {}),
@@ -369,6 +399,14 @@ Explain(s, ch, X) ==
                          \cup V("C19.rate", Mult(X) <= (IF n = 0 THEN 1 ELSE n), <<"same question asked more often than explained", X, Mult(X), n>>),
                !.h = s.h \cup (IF schedDue THEN {"C19.schedule"} ELSE {}) \cup (IF refIds # {} THEN {"C11.refresh"} ELSE {})
                          \cup (IF fuOk THEN {"C04.followup"} ELSE {}) \cup (IF verOk THEN {"C05.verify-query"} ELSE {})]
+
+(* a record of the instance that is news to the daemon (first heard, or heard again after the copy it held had run out)  *)
+(* makes it look at the instance again: the follow-up queries for what is still missing start over                       *)
+FuAfterNews(fu0, tOld, tNew) ==
+  LET news(f) == \E id \in Dom(tNew) : /\ ((id[1] \in {"SRV", "TXT"} /\ id[2] = f) \/ (id[1] = "PTR" /\ tNew[id].tk = f))
+                                        /\ tNew[id].at > lastT /\ tNew[id].ttl # 0
+                                        /\ (id \notin Dom(tOld) \/ tOld[id].ttl <= 1 \/ tOld[id].exp <= tNew[id].at)
+  IN [k \in {x \in Dom(fu0) : ~news(x)} |-> fu0[k]]
 
 RECURSIVE FoldQ(_, _, _)
 FoldQ(s, ch, Xs) == IF Xs = {} THEN s ELSE LET X == CHOOSE x \in Xs : TRUE IN FoldQ(Explain(s, ch, X), ch, Xs \ {X})
@@ -433,7 +471,8 @@ DueTimes(t, ch, sc, fu2, ver) ==
   \cup UNION {{x \in NextMark(t[id]) : x = MarkTime(t[id], 80)} : id \in HostNeeded(t, ch)}
   \cup {ch[x].deadline : x \in {y \in Dom(ch) : ch[y].kind = "host" /\ ch[y].bound /\ ch[y].st = "started" /\ ch[y].deadline >= 0}}
   \cup {v.at + 1000 : v \in {w \in ver : w.hosts # {}}}
-  \cup {fu2[k].last + 500 : k \in {x \in Dom(fu2) : fu2[x].n < 3}}
+  \* a follow-up series that is certainly under way (one question can be nothing else) and certainly not over
+  \cup {fu2[k].lastAny + 500 : k \in {x \in Dom(fu2) : fu2[x].n >= 1 /\ fu2[x].m < 3}}
 WakeCover(t, ch, sc, fu2, ver) ==
   LET due == {d \in DueTimes(t, ch, sc, fu2, ver) : d > T} IN
   IF due = {} THEN {}
@@ -556,10 +595,13 @@ AskedNow(t, f, k) == IF k = "inst" THEN \E X \in AllQ : X[1] = f /\ X[2] \in {"A
                      ELSE TRUE
 LackStep(lk, t, ch) ==
   [f \in {g \in AskInsts(ch) : \E id \in Dom(t) : id[1] = "PTR" /\ t[id].tk = g /\ LiveFu(t, id)} |->
-     LET k == LackKind(t, f)  a == AskedNow(t, f, k) IN
-     IF f \in Dom(lk) /\ lk[f].kind = k THEN [lk[f] EXCEPT !.asked = @ \/ a] ELSE [kind |-> k, since |-> T, asked |-> a]]
+     LET k == LackKind(t, f)  a == AskedNow(t, f, k)
+         \* an obligation begins when the instance is found, and when its SRV arrives and the addresses are the next thing to ask for;
+         \* records that were there and ran out are the business of the refresh schedule (C11 / C12), not of the follow-up
+         fresh == f \notin Dom(lk) \/ (lk[f].kind = "inst" /\ k = "host") IN
+     IF f \in Dom(lk) /\ lk[f].kind = k THEN [lk[f] EXCEPT !.asked = @ \/ a] ELSE [kind |-> k, since |-> T, asked |-> a \/ ~fresh]]
 AskOwed(lk, fu2) ==
-  UNION {V("C04.ask", lk[f].asked \/ lk[f].kind = "none" \/ T < lk[f].since + 1000 \/ (f \in Dom(fu2) /\ fu2[f].n >= 3),
+  UNION {V("C04.ask", lk[f].asked \/ lk[f].kind = "none" \/ T < lk[f].since + 1000 \/ (f \in Dom(fu2) /\ fu2[f].m >= 3),
            <<IF lk[f].kind = "inst" THEN "found instance without SRV: its SRV / TXT were not asked for within a second"
              ELSE "found instance whose SRV is known but no address: the host's addresses were not asked for within a second", f, lk[f].since, T>>)
          : f \in Dom(lk)}
@@ -576,7 +618,7 @@ Iter ==
      \E s1 \in {FoldCmd([tab |-> t1, chan |-> chan, cur |-> cur, owedStop |-> owedStop, down |-> down,
                          sched |-> sched, verifs |-> verifs], cmds)} :
      \E s2 \in {FoldEv([chan |-> s1.chan, owedStop |-> s1.owedStop, v |-> {}], s1.tab, Ev.events)} :
-     \E s3 \in {FoldQ([tab |-> s1.tab, sched |-> s1.sched, fu |-> fu, verifs |-> s1.verifs, used |-> {}, v |-> {}, h |-> {}], s2.chan, AllQ)} :
+     \E s3 \in {FoldQ([tab |-> s1.tab, sched |-> s1.sched, fu |-> FuAfterNews(fu, tab, t1), verifs |-> s1.verifs, used |-> {}, v |-> {}, h |-> {}], s2.chan, AllQ)} :
        /\ tab' = s3.tab /\ cur' = s1.cur /\ down' = s1.down
        /\ chan' = [x \in Dom(s2.chan) |->
                      IF s2.chan[x].kind = "host"
